@@ -326,6 +326,8 @@ func cmdCheck(args []string) int {
 	}
 	var valCases []valCase
 	harnessNames := map[string][]string{} // pkg -> harness names
+	reachedBy := map[string]map[string]bool{}
+	expectBy := map[string][]string{}
 
 	for _, g := range groups {
 		t := g.Quick
@@ -437,14 +439,17 @@ func cmdCheck(args []string) int {
 			if res.Aborted != "" {
 				inconclusive = append(inconclusive, res.Name+": "+res.Aborted)
 			}
-			// vacuity: every Reach label in the harness must have a witness
-			for _, l := range expectedReach(fn) {
-				if _, ok := res.Reached[l]; !ok && len(res.Violations) == 0 {
-					vacuous = append(vacuous, res.Name+": Reach("+l+") has no witness")
-				}
+			// vacuity: every Reach label in the harness must have a witness in at least one of its
+			// family/sweep instances (evaluated after all instances have run)
+			if reachedBy[fn.Name()] == nil {
+				reachedBy[fn.Name()] = map[string]bool{}
+				expectBy[fn.Name()] = expectedReach(fn)
 			}
-			if len(res.Reached) == 0 && len(res.Violations) == 0 {
-				vacuous = append(vacuous, res.Name+": no Reach witness at all")
+			for l := range res.Reached {
+				reachedBy[fn.Name()][l] = true
+			}
+			if len(res.Violations) > 0 {
+				reachedBy[fn.Name()]["*violated*"] = true
 			}
 			// samples + translator-validation cases (sequential harnesses only)
 			n := 0
@@ -459,6 +464,20 @@ func cmdCheck(args []string) int {
 				}
 			}
 		}
+		for name, exp := range expectBy {
+			if reachedBy[name]["*violated*"] {
+				continue
+			}
+			for _, l := range exp {
+				if !reachedBy[name][l] {
+					vacuous = append(vacuous, name+": Reach("+l+") has no witness in any instance")
+				}
+			}
+			if len(reachedBy[name]) == 0 {
+				vacuous = append(vacuous, name+": no Reach witness at all")
+			}
+		}
+		reachedBy, expectBy = map[string]map[string]bool{}, map[string][]string{}
 		for f, n := range ex.funcs {
 			funcsEncoded[f] = n
 		}
